@@ -6,6 +6,13 @@ import vlib, games, searches
 def main():
     chk = vlib.Check("C09", "model_checking")
     q = chk.quick
+    # design level: Negamax.tla (PVS with per-ply line buffers, draws, a poll at every node entry): every stop index on
+    # every small tree; NoWorkAfterStop, StopSafe, PVIsPath, IterationSound
+    mc = vlib.tlc("MC_Negamax", cfg="MC_Negamax.cfg" if q else "MC_Negamax_thorough.cfg", workers=4 if q else 8,
+                  timeout=3000, xmx="8g", dfs=False)
+    if mc.error or not mc.ok:
+        raise vlib.ToolError("MC_Negamax: " + (mc.error or mc.stdout[-1500:]))
+    chk.cov["negamax_model_states"] = mc.distinct
     rng = chk.rng
     roots = searches.root_positions()
     rng.shuffle(roots)
@@ -63,10 +70,12 @@ def main():
     if total_k == 0:
         raise vlib.ToolError("no stop index exercised")
     chk.cov.update({
-        "states": stats["searches"], "transitions": stats["infos"], "traces_validated_against_impl": len(all_files),
+        "states": mc.distinct, "transitions": mc.states, "traces_validated_against_impl": len(all_files),
         "evaluations": stats["searches"], "distinct_nontrivial": total_k,
         "stop_indices_exercised": total_k, "pairs": len(pairs), "profiles": list(profs),
-        "rule": "for each (position, depth limit): the unstopped search's number of stop-flag loads P is counted through the hook, then one run "
+        "rule": "Negamax.tla model-checked: all stop indices on all trees of a fixed shape with leaf values in {-1,0,1} and at most one draw "
+                "node (root line always a path of the tree; exact negamax value per completed iteration; no node entered after the stop; "
+                "final line = last completed line or starts with a completely searched root move). On the code: for each (position, depth limit): the unstopped search's number of stop-flag loads P is counted through the hook, then one run "
                 "per k = 1..P with the flag reading true from the k-th load on, followed by two ordinary searches on the same tables. Judged by "
                 "TLC: legal move returned, caller's position unchanged, no further flag load / node after the observing poll, follow-up searches "
                 "satisfy the C04/C08 clauses. non-trivial = distinct (position, limit, k)",
